@@ -45,3 +45,51 @@ Proof.
     destruct (step_fee_spacing w o H0 Hne) as (_ & Hlt & Hlast & _).
     simpl. split; [exact Hlt|]. rewrite <- Hlast. apply IH, Hfit'.
 Qed.
+
+(** ** To the nanosecond.
+
+    The origin of the cooldown is stored in whole seconds (rounded down).  Measured on the exact
+    block times, successive switches — and the first one after an instantiation at [t0], whose
+    second is the stored origin — are still more than a week apart: rounding the origin down
+    can only lengthen the wait. *)
+Fixpoint switch_times_ns (w : world) (ops : list op) : list N :=
+  match ops with
+  | [] => []
+  | o :: r =>
+      let w' := fst (step w o) in
+      (if match fee (market w), fee (market w') with
+          | JUNO a, JUNO b | USDC a, USDC b => a =? b
+          | _, _ => false
+          end then [] else [wnow w]) ++ switch_times_ns w' r
+  end.
+
+Fixpoint spaced_ns (t0 : N) (l : list N) : Prop :=
+  match l with [] => True | t :: r => t0 + WEEK_IN_SECS * NANOS < t /\ spaced_ns t r end.
+
+Lemma seconds_floor t : seconds t * NANOS <= t /\ t < (seconds t + 1) * NANOS.
+Proof.
+  unfold seconds. assert (Hn : NANOS <> 0) by (unfold NANOS; lia).
+  pose proof (N.div_mod t NANOS Hn) as Hd. pose proof (N.mod_lt t NANOS Hn) as Hm. lia.
+Qed.
+
+Theorem switches_spaced_ns ops : forall w t0,
+  times_fit w ops -> seconds t0 = fee_last (fee (market w)) ->
+  spaced_ns t0 (switch_times_ns w ops).
+Proof.
+  induction ops as [|o r IH]; intros w t0 Hfit Ht0; [exact Logic.I|].
+  cbn [switch_times_ns]. cbv zeta.
+  assert (Hfit' : times_fit (fst (step w o)) r).
+  { intros n. specialize (Hfit (S n)). simpl in Hfit. exact Hfit. }
+  destruct (match fee (market w), fee (market (fst (step w o))) with
+            | JUNO a, JUNO b | USDC a, USDC b => a =? b | _, _ => false end) eqn:E.
+  - apply fee_same_dec in E. simpl. apply IH; [exact Hfit' | rewrite <- E; exact Ht0].
+  - assert (Hne : fee (market (fst (step w o))) <> fee (market w)).
+    { intros Heq. assert (T : (match fee (market w), fee (market (fst (step w o))) with
+            | JUNO a, JUNO b | USDC a, USDC b => a =? b | _, _ => false end) = true) by (apply fee_same_dec; congruence). congruence. }
+    pose proof (Hfit 0%nat) as H0. simpl in H0.
+    destruct (step_fee_spacing w o H0 Hne) as (_ & Hlt & Hlast & _).
+    simpl. split.
+    + destruct (seconds_floor t0) as [_ A]. destruct (seconds_floor (wnow w)) as [B _].
+      rewrite Ht0 in A. nia.
+    + apply IH; [exact Hfit' | symmetry; exact Hlast].
+Qed.
